@@ -229,29 +229,23 @@ def create_table(
             inc_items = [item.get_pos_inc() for item in items]
             maybe_new_state = LRState(grammar, state_id, symbol, inc_items)
             target_state = maybe_new_state
-            try:
-                idx = states.index(maybe_new_state)
-                target_state = states[idx]
-            except ValueError:
-                try:
-                    idx = state_queue.index(maybe_new_state)
-                    target_state = state_queue[idx]
-                except ValueError:
-                    pass
+            # A state with this kernel items may already exist. For LALR try to
+            # merge, i.e. update items follow sets. There may be several states
+            # with the same kernel if merging has been refused before so try
+            # each of them, otherwise the refused state would be created anew
+            # each time it is reached.
+            for same_kernel_state in chain(states, state_queue):
+                if same_kernel_state == maybe_new_state and (
+                    itemset_type is not LR_1
+                    or merge_states(same_kernel_state, maybe_new_state)
+                ):
+                    target_state = same_kernel_state
+                    break
 
             if target_state is maybe_new_state:
                 # We've found a new state. Register it for later processing.
                 state_queue.append(target_state)
                 state_id += 1
-            else:
-                # A state with this kernel items already exists.
-                # LALR: Try to merge states, i.e. update items follow sets.
-                if itemset_type is LR_1 and not merge_states(
-                    target_state, maybe_new_state
-                ):
-                    target_state = maybe_new_state
-                    state_queue.append(target_state)
-                    state_id += 1
 
             # Create entries in GOTO and ACTION tables
             if isinstance(symbol, NonTerminal):
